@@ -78,7 +78,9 @@ def solver_eigen_scipy(**kwargs) -> EigenSolver:
 
     def solver(K, M, **solve_time_kwargs):
         from scipy.sparse.linalg import eigs
-        return eigs(K, M=M, **{**params, **solve_time_kwargs})
+        # a fixed start vector: ARPACK draws a random one otherwise
+        return eigs(K, M=M, **{'v0': np.ones(K.shape[0]),
+                               **params, **solve_time_kwargs})
 
     return solver
 
@@ -101,7 +103,9 @@ def solver_eigen_scipy_sym(**kwargs) -> EigenSolver:
 
     def solver(K, M, **solve_time_kwargs):
         from scipy.sparse.linalg import eigsh
-        return eigsh(K, M=M, **{**params, **solve_time_kwargs})
+        # a fixed start vector: ARPACK draws a random one otherwise
+        return eigsh(K, M=M, **{'v0': np.ones(K.shape[0]),
+                                **params, **solve_time_kwargs})
 
     return solver
 
